@@ -135,7 +135,6 @@ Print Assumptions C11_count_by_weight_refuted.
 Theorem C11_additional_max_one :
   forall K klt kpos A, key_order K klt kpos ->
   forall want4 want6 (rows : list (row K A)) r6 r4 wt,
-    NoDup (map rpay rows) ->
     additional klt kpos want4 want6 rows = (r6, r4, wt) ->
     length r4 = (if want4 then Nat.min 1 (length (filter (fun r : row K A => (rq r =? TypeA) && kpos (rkey r)) rows)) else 0%nat)
     /\ length r6 = (if want6 then Nat.min 1 (length (filter (fun r : row K A => (rq r =? TypeAAAA) && kpos (rkey r)) rows)) else 0%nat)
@@ -143,6 +142,21 @@ Theorem C11_additional_max_one :
     /\ (forall a, In a r6 -> exists r, In r rows /\ rq r = TypeAAAA /\ rpay r = a /\ kpos (rkey r) = true).
 Proof. intros K klt kpos A (H1 & H2 & H3). exact (additional_max_one K klt kpos A H1 H2 H3). Qed.
 Print Assumptions C11_additional_max_one.
+
+(* the whole additional section, want4/want6 computed by HasRecord for every
+   NS/MX record (a target may be named by several records, or already have an
+   address in the message): for every owner name and family the final message
+   holds at most one such record more than before, and none more if it already
+   held one: count_after <= max 1 count_before *)
+Theorem C11_additional_section_one_per_family :
+  forall K klt kpos A, key_order K klt kpos ->
+  forall (targets : list (N * list (row K A))) msg es wt m,
+    additional_section klt kpos msg targets = (es, wt, m) ->
+    m = msg ++ map fst es
+    /\ forall name q, q = TypeA \/ q = TypeAAAA ->
+         (cnt m name q <= Nat.max 1 (cnt msg name q))%nat.
+Proof. intros K klt kpos A (H1 & H2 & H3). exact (additional_section_one_per_family K klt kpos A H1 H2 H3). Qed.
+Print Assumptions C11_additional_section_one_per_family.
 
 (* the hypotheses are satisfiable (ranks) and the model computes non-trivially *)
 Example C11_key_order_satisfiable : key_order N rk_lt rk_pos.
